@@ -3380,6 +3380,16 @@ impl Spx {
     }
 }
 
+#[cfg(comrak_verif)]
+impl Spx {
+    pub(crate) fn verif_new(v: VecDeque<(Sourcepos, usize)>) -> Self {
+        Spx(v)
+    }
+    pub(crate) fn verif_into_inner(self) -> VecDeque<(Sourcepos, usize)> {
+        self.0
+    }
+}
+
 /// Verification hooks (only with `--cfg comrak_verif`): a thread-local tap on `process_line`
 /// and a pass-through to `strings::split_off_front_matter`.
 #[cfg(comrak_verif)]
